@@ -1,5 +1,6 @@
 use crate::engine::Spec;
 
+pub mod c01;
 pub mod c02;
 pub mod c03;
 pub mod c04;
@@ -12,5 +13,5 @@ pub mod c14;
 pub mod c20;
 
 pub fn all() -> Vec<Spec> {
-    vec![c02::spec(), c03::spec(), c04::spec(), c06::spec(), c10::spec(), c11::spec(), c12::spec(), c13::spec(), c14::spec(), c20::spec()]
+    vec![c01::spec(), c02::spec(), c03::spec(), c04::spec(), c06::spec(), c10::spec(), c11::spec(), c12::spec(), c13::spec(), c14::spec(), c20::spec()]
 }
